@@ -82,6 +82,29 @@ func c01HttpRun(r *zsim.Run) {
 	}
 	if !rejected {
 		r.Failf("breaker-not-tripped", "12 consecutive 5xx responses did not open the route's breaker")
+		return
 	}
 	r.FaultFired("5xx-response")
+	// after the failures have aged out, responses below 500 - also those that never call WriteHeader, on another
+	// route - are successes again, whatever was answered before
+	zsim.Sleep(11 * time.Second)
+	h2 := BreakerHandler(http.MethodGet, fmt.Sprintf("/other/%d", r.Seed), metrics)(http.HandlerFunc(func(w http.ResponseWriter, req *http.Request) {
+		ran++
+		w.Write([]byte("implicit 200"))
+	}))
+	for i := 0; i < 40; i++ {
+		n := ran
+		var got int
+		if i%2 == 0 {
+			got = do(0)
+		} else {
+			rec := httptest.NewRecorder()
+			h2.ServeHTTP(rec, httptest.NewRequest(http.MethodGet, "http://localhost/other", nil))
+			got = rec.Code
+		}
+		if ran == n {
+			r.Failf("benign-outcome-trips-breaker", "after the 5xx responses had left the window, request %d answered with an implicit 200 was dropped by a breaker (answered %d)", i, got)
+			return
+		}
+	}
 }
